@@ -132,6 +132,31 @@ def c07(ctx):
                       "plus random whole sends of the 'pair' corpus judged on flow matrices; non-trivial = >= 2 postings")
 
 
+@check("C08")
+def c08(ctx):
+    ctx.assumptions += TRUST
+    ctx.assumptions.append("relational check: both sides are real executions; the specification supplies the visible balance after the save (printed by TLC)")
+    ctx.tlc_mc("SemMC", "SemMC_prog_%s.cfg" % ctx.tier, label="C08_Sem: what was saved cannot be moved without an overdraft grant (design level)")
+    n, b = scale(ctx, (3000, 4), (8000, 16))
+    sem.split_batches(ctx, "save", "c08", n, b)
+    sem.trace_batches(ctx, "save", "MachineTrace_C08.cfg", n, min(b, 4))
+    return ctx.finish("model_checking", "scripts of the 'save' corpus (1-5 statements, saves placed anywhere among probing sends: send-all and exact sends, with and "
+                      "without bounded overdraft, balances negative/zero/positive); one evaluation = one save-split (whole vs prefix + suffix on the TLC-printed "
+                      "visible balance, with the save-deleted control); non-trivial = the statements after the save produce postings")
+
+
+@check("C09")
+def c09(ctx):
+    ctx.assumptions += TRUST
+    ctx.assumptions.append("relational check: three real executions per split point; the intermediate state is printed by TLC from the logged postings and the save formula")
+    ctx.tlc_mc("SemMC", "SemMC_prog_%s.cfg" % ctx.tier, label="two-statement programs of the semantics (design level)")
+    n, b = scale(ctx, (2500, 4), (6000, 16))
+    sem.split_batches(ctx, "multi", "c09", n, b)
+    sem.trace_batches(ctx, "multi", "MachineTrace_C09.cfg", n, min(b, 4), also=("META",))
+    return ctx.finish("model_checking", "multi-statement scripts without balance-reading variables; one evaluation = one (script, split point k): whole run vs statements 1..k "
+                      "on B and k+1..n on the state TLC printed; non-trivial = both halves produce postings")
+
+
 def replay(path):
     rp = json.load(open(path))
     prop = rp.get("property", "C00")
@@ -146,6 +171,14 @@ def replay(path):
                 print("VIOLATION property=%s replay=%s" % (prop, path))
                 for h in hits:
                     print("  ", h["what"])
+                return 1
+            print("not reproduced")
+            return 0
+        if rp["kind"] == "split":
+            viols, rp2 = sem.confirm_split(ctx, rp["mode"], prop, rp["case"])
+            print(json.dumps(rp2.get("relation_lines"), indent=1)[:3000])
+            if viols:
+                print("VIOLATION property=%s replay=%s" % (prop, path))
                 return 1
             print("not reproduced")
             return 0
